@@ -145,7 +145,11 @@ def run_shard(ctx, shard):
     env.update(shard.get('env', {}))
     binary = shard.get('binary') or ctx.binary
     try:
-        p = subprocess.run([binary, 'race', str(T), ctx.extra['corpus_path'], out_path], env=env, stdout=subprocess.DEVNULL,
+        cpath = ctx.extra['small_corpus_path'] if shard.get('small') else ctx.extra['corpus_path']
+        if shard.get('tiny'):
+            cpath = ctx.extra['tiny_corpus_path']
+            keys, ref = ctx.extra['tiny_keys'], ctx.extra['tiny_ref']
+        p = subprocess.run([binary, 'race', str(T), cpath, out_path, str(shard.get('reps', 1))], env=env, stdout=subprocess.DEVNULL,
                            stderr=subprocess.PIPE, timeout=1800)
     except subprocess.TimeoutExpired:
         ctx.inconclusive['race process watchdog'] += 1
@@ -266,12 +270,31 @@ def execute(run):
             r = d.conv(doc, entry=entry, flags=7, bg=bg, fill=fill, scale=scale)
         ref.append(r.out.encode('utf-8', 'surrogateescape') if r.ok else b'PANIC ' + r.out.encode())
     d.close()
-    extra = {'keys': keys, 'ref': ref, 'corpus_path': cpath}
+    # the first 12 keys once more as a corpus of their own: many threads, few keys, every key twice in a row
+    spath = os.path.join(WORK, 'c07-corpus-small.bin')
+    write_corpus(spath, keys[:12])
+    # four tiny documents through to_svg, each converted ~1000 times in a row by every thread: a thread that
+    # repeats an input while the others convert different ones
+    tiny = [(0, '+-+\n', 'white', 'black', 8.0), (0, 'ab\n', 'white', 'black', 8.0), (0, '-->\n', 'white', 'black', 8.0), (0, '()\n', 'white', 'black', 8.0)]
+    tpath = os.path.join(WORK, 'c07-corpus-tiny.bin')
+    write_corpus(tpath, tiny)
+    tiny_ref = []
+    d = Driver(binary)
+    for entry, doc, bg, fill, scale in tiny:
+        tiny_ref.append(d.conv(doc, entry=0, flags=7).out.encode())
+    d.close()
+    extra = {'keys': keys, 'ref': ref, 'corpus_path': cpath, 'small_corpus_path': spath, 'tiny_corpus_path': tpath, 'tiny_keys': tiny, 'tiny_ref': tiny_ref}
     shards = [{'kind': 'proc', 'name': 'process-%d' % i, 'reps': 5 if quick else 20} for i in range(8 if quick else 32)]
     for rep in range(2 if quick else 8):
         for T in (1, 2, 4, 8, 16):
             for delay in (0, 300) if quick else (0, 100, 2000):
                 shards.append({'kind': 'race', 'name': 'race-T%d-d%d-%d' % (T, delay, rep), 'threads': T, 'delay': delay})
+    for rep in range(2 if quick else 8):
+        for T in (4, 16):
+            shards.append({'kind': 'race', 'name': 'race-small-T%d-%d' % (T, rep), 'threads': T, 'delay': 0, 'small': True, 'reps': 40})
+    for rep in range(3 if quick else 12):
+        for T in (8, 16):
+            shards.append({'kind': 'race', 'name': 'race-tiny-T%d-%d' % (T, rep), 'threads': T, 'delay': 0, 'tiny': True, 'reps': 1000})
     run.run_shards(binary, shards, extra=extra, workers=8)
     winners = [k for k in run.tags if k.startswith('init_winner_')]
     run.tags['distinct_init_winners'] = len(winners)
